@@ -13,3 +13,9 @@ func verifMapSet(offset uint32, bucket uint32, kth uint32)
 func verifMapClear() (count, multi, akash, akashMulti uint32)
 
 const mapHookAvailable = true
+
+//go:linkname verifTimeSet runtime.verifTimeSet
+func verifTimeSet(shift int64)
+
+//go:linkname verifTimeNows runtime.verifTimeNows
+func verifTimeNows() uint32
